@@ -62,7 +62,7 @@ class Harness:
             self.gen = HarnessGen(self.cat, exclude=excl, only=self.only, no_models=self.no_models)
             with open(os.path.join(self.work, "c20_prelude.hpp"), "w") as f:
                 f.write(self.gen.prelude())
-            tus = self.gen.translation_units(self.ntus, self.subset, self.inline_twins)
+            tus = self.gen.translation_units(self.ntus, self.subset, self.inline_twins, at_exit_object=(self.runtime == "c20_rt.cpp"))
             tus = {fn: text for fn, text in tus.items() if "vrt::OpEntry" in text}
             todo = []
             for fn, text in tus.items():
@@ -116,7 +116,7 @@ class Harness:
         else:
             return "generated harness still does not compile after dropping %d ops" % len(self.dropped)
         exe = os.path.join(self.work, "c20_worker_" + self.label)
-        rc, out, err = run([self.cxx] + self.flags + ["-o", exe] + self.objects, timeout=1800)
+        rc, out, err = run([self.cxx] + self.flags + ["-pthread", "-o", exe] + self.objects, timeout=1800)
         if rc != 0:
             return "link failed:\n" + err.decode(errors="replace")[-4000:]
         self.exe = exe
@@ -133,8 +133,8 @@ class Harness:
 
 
 # ------------------------------------------------------------------------------------ plans
-def op(name, seed, p0=-1, p1=-1, slot=-1, fault="none", fa=0, fb=0, vc=-1):
-    return {"name": name, "seed": seed & common.MASK, "p0": p0, "p1": p1, "slot": slot, "fault": fault, "fa": fa, "fb": fb, "vc": vc}
+def op(name, seed, p0=-1, p1=-1, slot=-1, fault="none", fa=0, fb=0, vc=-1, thr=0):
+    return {"name": name, "seed": seed & common.MASK, "p0": p0, "p1": p1, "slot": slot, "fault": fault, "fa": fa, "fb": fb, "vc": vc, "thr": thr}
 
 
 def cfg(slot, budget, mode, state, flags):
@@ -151,10 +151,12 @@ def plan_text(runs):
                 out.append("CFG %d %d %d %d %d" % tuple(o["cfg"]))
             elif "mode" in o:
                 out.append("MODE %d" % o["mode"])
+            elif "exitop" in o:
+                out.append("EXITOP %s %d" % (o["name"], o["seed"]))
             elif "rep" in o:
                 out.append("REP %s %d %d %d" % (o["name"], o["seed"], o["rep"], o["vary"]))
             else:
-                out.append("OP %s %d %d %d %d %s %d %d %d" % (o["name"], o["seed"], o["p0"], o["p1"], o["slot"], o["fault"], o["fa"], o["fb"], o.get("vc", -1)))
+                out.append("OP %s %d %d %d %d %s %d %d %d %d" % (o["name"], o["seed"], o["p0"], o["p1"], o["slot"], o["fault"], o["fa"], o["fb"], o.get("vc", -1), o.get("thr", 0)))
         out.append("END")
     return "\n".join(out) + "\n"
 
@@ -444,6 +446,40 @@ def gen_endurance(h, rng, thorough):
     return plans
 
 
+def gen_threads(h, rng, nplans):
+    """sequential use from two threads, one fresh process per plan: a call first made on a short-lived worker thread
+    (joined), then on the main thread, then on another worker thread -- and the mirror image.  No two calls overlap."""
+    names = sorted(h.ops)
+    printers = [n for n in names if re.search(r"\|(Print|JSON|XML|YAML)\(", n) or n.startswith("Base|") or h.ops[n] & 1]
+    plans = []
+    for i in range(nplans):
+        r = Rng(rng.u64())
+        a = r.choice(printers if r.below(3) else names)
+        b = r.choice(printers if r.below(2) else names)
+        first_thr = i % 2
+        ops = [op(a, r.u64(), thr=first_thr), op(a, r.u64(), thr=1 - first_thr), op(b, r.u64(), thr=first_thr), op(a, r.u64(), thr=1),
+               op(b, r.u64(), thr=0), op(a, r.u64(), fault="alloc", fa=r.below(8), thr=1), op(a, r.u64(), thr=0)]
+        plans.append(ops)
+    return plans
+
+
+def gen_at_exit(h, rng, nplans):
+    """one fresh process per plan: a few ordinary calls, then calls made from the destructor of a namespace-scope
+    object defined after the library's includes (after main returned)"""
+    names = sorted(h.ops)
+    printers = [n for n in names if re.search(r"\|(Print|JSON|XML|YAML)\(", n) or n.startswith("Base|") or h.ops[n] & 1]
+    plans = []
+    for i in range(nplans):
+        r = Rng(rng.u64())
+        ops = []
+        picks = [r.choice(printers if r.below(3) else names) for _ in range(r.rng(1, 4))]
+        if i % 3:
+            ops += [op(n, r.u64()) for n in picks]          # state is created during the run, then used at exit
+        ops += [{"exitop": True, "name": n, "seed": r.u64()} for n in picks + [r.choice(names)]]
+        plans.append(ops)
+    return plans
+
+
 def gen_history(h, rng, nplans, maxops=40):
     """swarm-style plans: each run enables a random subset of op families and fault kinds; stream
     slots persist across the ops of a run, so earlier sink faults and state bits shape later calls"""
@@ -514,7 +550,7 @@ def reproduces(exe, plan_ops, want_cls, want_name, valgrind=False, env=None):
 def precise_fault(o, ev):
     """turn an enumerating fault into the single fault position the worker reported"""
     o = dict(o)
-    if "rep" in o:
+    if "rep" in o or "exitop" in o:
         return o
     f = ev.get("fault", "")
     m = re.match(r"^(alloc|allocfrom):(\d+)$", f)
@@ -544,8 +580,11 @@ def minimise(exe, run_ops, ev, valgrind=False, budget=120, env=None):
         used[0] += 1
         return reproduces(exe, list(sub_prefix) + [tgt], cls, name, valgrind, env) is not None
     tgt = target
-    if "rep" in target:
-        return (list(prefix) + [target] if not fails([], target) else [target]), used[0]
+    if "rep" in target or "exitop" in target:
+        if fails([], target):
+            return [target], used[0]
+        keep, n_ = common.ddmin(prefix, lambda sub: fails(sub, target), budget=budget)
+        return (list(keep) + [target]) if fails(keep, target) else (list(prefix) + [target]), used[0] + n_
     if cand_target != target and fails(prefix, cand_target):
         tgt = cand_target
     if tgt["fault"] != "none":
@@ -679,7 +718,7 @@ def main(tier, seed):
                 continue
             o = ops_[oi]
             n = r["n"]
-            if "rep" in o:
+            if "rep" in o or "exitop" in o:
                 continue
             if o["fault"] == "alloceach":
                 for k in range(n):
@@ -748,6 +787,11 @@ def main(tier, seed):
     # 4b. cold starts: one fresh process per plan, first call already under an allocation failure
     cold = gen_cold(hs, rng, int(os.environ.get("VERIF_C20_COLD", "8000" if thorough else "1200")), alloc_counts)
     execute("cold-starts", hs.exe, [(600000 + i, ops_) for i, ops_ in enumerate(cold)], fresh=True)
+    # 4c. two threads used one after the other; calls at static-destruction time (fresh process per plan)
+    thr = gen_threads(hs, rng, int(os.environ.get("VERIF_C20_THREADS", "6000" if thorough else "700")))
+    execute("two-threads", hs.exe, [(700000 + i, ops_) for i, ops_ in enumerate(thr)], fresh=True)
+    axp = gen_at_exit(hs, rng, int(os.environ.get("VERIF_C20_ATEXIT", "6000" if thorough else "700")))
+    execute("at-exit", hs.exe, [(800000 + i, ops_) for i, ops_ in enumerate(axp)], fresh=True)
     # 5. uninitialised reads: plain build under memcheck, every instance once + the sweeps
     vg_ops = gen_enumeration(hp, rng, draws=(6 if thorough else 2), faults=False) + gen_sweeps(hp, cat)
     vg_ops += [o for o in gen_value_classes(hp, rng) if thorough or o["vc"] in (0, 2, 5, 9)]
